@@ -129,7 +129,7 @@ func H_C19_repeat() {
 // H_C19_globals: tokenising, parsing and evaluating on an instance of one's own writes no
 // package-level state (nor anything reachable from it).
 func H_C19_globals() {
-	exprs := []string{"a + 1 <= b", "max(a, 2) IS NOT NULL AND NOT b", "'x' + \"q\" <> a[0]", "1 <<", "a <= b <> c << 2 >= d"}
+	exprs := []string{"a + 1 <= b", "max(a, 2) IS NOT NULL AND NOT b", "'x' + \"q\" <> a[0]", "1 <<", "a <= b <> c << 2 >= d", "'ab'[0] + 'ab'[1]", "b[0] IS NULL OR 'x'[0] = 'x'"}
 	which := vChoice("what", len(exprs)+2)
 	x := vInt("a")
 	vWriteSetBegin()
